@@ -342,9 +342,46 @@ def _fresh_sequence(sess_state, st, T):
     return []
 
 
-def run_trace(fs, trace, flog, preempt, collect_states=False):
+def _fresh_eval(fs, sd, si, seq, st, want):
+    """Fresh object on the main thread of a pristine process: replay seq, then the call st.
+    -> [prefix_raised, call_raised, value, reports]"""
     import warnings
     warnings.simplefilter("ignore")
+    with seams.quiet():
+        obj = build_forsys(fs, sd, f"ref{si}")
+        for c in seq:
+            try:
+                apply_call(obj, c, sd)
+            except Exception as e:
+                return [type(e).__name__, None, None, None]
+        raised = None
+        val = None
+        if st is not None:
+            try:
+                val = apply_call(obj, st, sd)
+            except Exception as e:
+                raised = type(e).__name__
+        rep = None
+        if want and raised is None:
+            t = (st["when"] if st is not None else seq[-1]["when"]) % sd["frames"]
+            rep = read_tension_reports(obj, t) if want == "tension" else read_pressure_reports(obj, t)
+        if val is not None:
+            try:
+                val = [float(x) for x in val]
+            except TypeError:
+                val = None
+    return [None, raised, val, rep]
+
+
+def run_trace(fs, trace, flog, preempt, collect_states=False):
+    import os
+    import warnings
+    from . import isolate
+    warnings.simplefilter("ignore")
+    # the reference lives in a pristine process: fork its zygote before anything of this run executes
+    ref = None
+    if os.environ.get("VERIF_INPROC_REF") != "1":
+        ref = isolate.RefServer(lambda req: _fresh_eval(fs, trace["sessions"][req["si"]], req["si"], req["seq"], req["st"], req["want"]))
     h = hashlib.sha256()
     log = []
     violations = []
@@ -394,29 +431,10 @@ def run_trace(fs, trace, flog, preempt, collect_states=False):
                 sessions.append(ss)
 
         def fresh_eval(si, seq, st, want):
-            """Fresh object on the main thread: replay seq, then the call st (if any).
-            -> (prefix_raised, call_raised, value, reports)"""
-            sd = trace["sessions"][si]
             stats["extra"]["fresh_objects_built"] += 1
-            with seams.quiet():
-                obj = build_forsys(fs, sd, f"ref{si}")
-                for c in seq:
-                    try:
-                        apply_call(obj, c, sd)
-                    except Exception as e:
-                        return (type(e).__name__, None, None, None)
-                raised = None
-                val = None
-                if st is not None:
-                    try:
-                        val = apply_call(obj, st, sd)
-                    except Exception as e:
-                        raised = type(e).__name__
-                rep = None
-                if want and raised is None:
-                    t = (st["when"] if st is not None else seq[-1]["when"]) % sd["frames"]
-                    rep = read_tension_reports(obj, t) if want == "tension" else read_pressure_reports(obj, t)
-            return (None, raised, val, rep)
+            if ref is None:
+                return tuple(_fresh_eval(fs, trace["sessions"][si], si, seq, st, want))
+            return tuple(ref.call({"si": si, "seq": seq, "st": st, "want": want}))
 
         def compare_all(idx, st):
             for si, ss in enumerate(sessions):
@@ -662,6 +680,8 @@ def run_trace(fs, trace, flog, preempt, collect_states=False):
             stats["unraisable"] = len(unr.items)
     finally:
         baton.close()
+        if ref is not None:
+            ref.close()
         stats["finalizers"] = dict(flog.counts)
         sessions.clear()
         memo.clear()
